@@ -150,7 +150,7 @@ def run_impl(case):
     try:
         try:
             a = build_alloc(case["cells"])
-        except (AssertionError, ZeroDivisionError) as e:
+        except Exception as e:      # rejected: the class of the exception is not compared
             return {"init": None, "err": type(e).__name__}
         obs = {"init": alloc_obs(a), "mbr": [bool(a.must_be_refined(float(t))) for t in case["ths"]], "steps": []}
         # does refining at t change the allocation?  (C12: must_be_refined <-> refine changes it)
@@ -162,7 +162,7 @@ def run_impl(case):
                 b = a.refine(float(t))
                 ch.append(len(b.allocations) != len(a.allocations) or
                           not same_cells(alloc_obs(b)["cells"], obs["init"]["cells"]))
-            except (AssertionError, ZeroDivisionError) as e:
+            except Exception as e:
                 ch.append(type(e).__name__)
         obs["refine_changes"] = ch
         for o in case["ops"]:
@@ -178,7 +178,7 @@ def run_impl(case):
                     b = a.uniform_refinement_depth()
                 else:
                     b = a.griddify()
-            except (AssertionError, ZeroDivisionError, IndexError) as e:
+            except Exception as e:
                 obs["steps"].append({"before": before, "after": None, "err": type(e).__name__})
                 break
             after = alloc_obs(b)
@@ -402,7 +402,7 @@ def run_hist_impl(case):
         from harness.props import alloc_variants
         try:
             A = [alloc_variants.build(case)]
-        except (AssertionError, ZeroDivisionError) as e:
+        except Exception as e:      # rejected: the class of the exception is not compared
             return {"init": None, "err": type(e).__name__}
         obs = {"init": {"cells": cells_obs(A[0])}, "steps": []}
         for h in case["hops"]:
@@ -422,7 +422,7 @@ def run_hist_impl(case):
                         b = a.uniform_refinement_depth()
                     else:
                         b = a.griddify()
-                except (AssertionError, ZeroDivisionError, IndexError, KeyError) as e:
+                except Exception as e:
                     b = None
                     st["err"] = type(e).__name__
                 st["new"] = None if b is None else cells_obs(b)
@@ -432,7 +432,7 @@ def run_hist_impl(case):
             elif h[0] == "copy":
                 try:
                     b = Allocation([(c.rect, c.alloc, c.depth) for c in a.allocations])
-                except (AssertionError, ZeroDivisionError) as e:
+                except Exception as e:
                     b = None
                     st["err"] = type(e).__name__
                 st["new"] = None if b is None else cells_obs(b)
@@ -689,9 +689,21 @@ def gen_hist_template(rng, idx):
 
 
 def hist_dist_key(c):
-    def tag(h):
-        return h[2][0] if h[0] == "apply" else h[0]
-    return "hist/" + "+".join(tag(h) for h in c["hops"])[:80]
+    """layout / template kind (the variations - input form, names, depths - are counted in extra['variants'])"""
+    return "hist/" + c["kind"].split("/")[0]
+
+
+def variant_counts(cases):
+    out = {}
+    for c in cases:
+        if is_hist(c):
+            tags = c["kind"].split("/")[1].split("+") if "/" in c["kind"] else ["plain"]
+            for t in tags + ["form:" + c.get("form", "objects")]:
+                out[t] = out.get(t, 0) + 1
+            for h in c["hops"]:
+                k = "step:" + (h[2][0] if h[0] == "apply" else h[0])
+                out[k] = out.get(k, 0) + 1
+    return out
 
 
 def hist_shrink(case):
